@@ -965,6 +965,7 @@ func c07Generate(o *Out, f func(c *c07Case)) {
 func runC07(o *Out) {
 	debug.SetPanicOnFault(true)
 	c07ArrayCases(o)
+	slicePoolProbe(o, "C07")
 	n := 0
 	c07Generate(o, func(c *c07Case) {
 		n++
